@@ -98,7 +98,7 @@ Theorem search_index_independent_when_keys_normalised :
 Proof. exact index_independent_when_keys_normalised. Qed.
 Print Assumptions search_index_independent_when_keys_normalised.
 
-(* Unique indexes admit no duplicates: after EVERY history of inserts (single or multi-document),
+(* Unique indexes hold no duplicates: after EVERY history of inserts (single or multi-document),
    replaces, deletes, index creations / deletions and reads -- any history that does not add or
    remove typed fields -- no two live documents share the (key of the) tuple of a unique index.
    (Outside the model: InsertDocuments runs on a snapshot that need not include the latest
